@@ -23,9 +23,11 @@ import (
 	"os"
 	"strconv"
 	"strings"
+	"sync"
 
 	"github.com/ethereum/go-ethereum/crypto"
 	"github.com/ethereum/go-ethereum/p2p/enode"
+	"github.com/holiman/uint256"
 	"github.com/zen-eth/shisui/portalwire"
 	"github.com/zen-eth/shisui/storage"
 )
@@ -144,8 +146,135 @@ func node06Gen(c *Ctx) {
 }
 
 func init() {
+	stExtraExec["rpc06"] = func(c *Ctx, f []string) {
+		rad, _ := uint256.FromHex("0x" + f[2])
+		var ds [][]byte
+		for _, d := range strings.Split(f[3], ",") {
+			ds = append(ds, unhx(d))
+		}
+		stRpc06(c, f[1], rad, ds)
+	}
 	stExtraExec["node06"] = func(c *Ctx, f []string) {
 		n, _ := strconv.ParseUint(f[1], 10, 64)
 		stNode06(c, n, f[2], strings.Split(f[3], ";"))
+	}
+}
+
+// ---------------------------------------------------------------- the Store RPC over a backend that does not enforce the radius
+//
+//	rpc06 <private key> <radius hex> <distances> | ok <node id> <verdicts>
+//
+// PortalProtocolAPI.Store on a REAL PortalProtocol whose storage accepts everything (as the ephemeral store of the
+// history network, the beacon store or the mock store do) and advertises <radius>: for every XOR distance of the list
+// the content id at that distance from the node id is offered to the RPC; verdict 1 = stored (true, nil),
+// 0 = declined (false, nil), e = error.  The RPC itself has to apply the in-range rule.
+type looseStore struct {
+	mu     sync.Mutex
+	m      map[string][]byte
+	radius *uint256.Int
+}
+
+func (l *looseStore) Get(k []byte, id []byte) ([]byte, error) {
+	l.mu.Lock()
+	defer l.mu.Unlock()
+	if v, ok := l.m[string(id)]; ok {
+		return v, nil
+	}
+	return nil, storage.ErrContentNotFound
+}
+func (l *looseStore) Put(k []byte, id []byte, v []byte) error {
+	l.mu.Lock()
+	defer l.mu.Unlock()
+	l.m[string(id)] = v
+	return nil
+}
+func (l *looseStore) Radius() *uint256.Int { return l.radius }
+func (l *looseStore) Close() error         { return nil }
+
+func stRpc06(c *Ctx, keyhex string, radius *uint256.Int, dists [][]byte) {
+	ds := make([]string, len(dists))
+	for i, d := range dists {
+		ds[i] = hx(d)
+	}
+	head := fmt.Sprintf("rpc06 %s %s %s", keyhex, radius.Hex()[2:], strings.Join(ds, ","))
+	var out string
+	p, msg := guard(func() {
+		key, err := crypto.HexToECDSA(keyhex)
+		if err != nil {
+			panic(err)
+		}
+		nid := enode.PubkeyToIDV4(&key.PublicKey)
+		st := &looseStore{m: map[string][]byte{}, radius: radius}
+		inst, err := portalwire.VerifHNew(portalwire.History, key, st, nil, nil, 4)
+		if err != nil {
+			panic(err)
+		}
+		defer inst.Close()
+		portalwire.VerifSetContentIdFunc(inst.P, func(k []byte) []byte { return append([]byte{}, k[1:33]...) })
+		api := portalwire.NewPortalAPI(inst.P)
+		vs := make([]string, len(dists))
+		for i, d := range dists {
+			id := xor32(d, nid[:])
+			ok, err := api.Store("0x00"+hx(id), "0x07")
+			switch {
+			case err != nil:
+				vs[i] = "e"
+			case ok:
+				vs[i] = "1"
+			default:
+				vs[i] = "0"
+			}
+		}
+		out = hx(nid[:]) + " " + strings.Join(vs, ",")
+	})
+	if p {
+		c.Emit("%s | panic %s", head, msg)
+		return
+	}
+	c.Emit("%s | ok %s", head, out)
+}
+
+func rpc06Gen(c *Ctx) {
+	r := c.Rng
+	rounds := 6
+	if c.Tier == "thorough" {
+		rounds = 100
+	}
+	for i := 0; i < rounds; i++ {
+		var keyhex string
+		for {
+			keyhex = fmt.Sprintf("%x", r.Bytes(32))
+			if _, err := crypto.HexToECDSA(keyhex); err == nil {
+				break
+			}
+		}
+		var rad *uint256.Int
+		switch r.Intn(5) {
+		case 0:
+			rad = uint256.NewInt(uint64(r.Intn(1000)))
+		case 1:
+			rad = new(uint256.Int).Lsh(uint256.NewInt(1), uint(r.Intn(256)))
+		case 2:
+			rad = uint256.MustFromHex("0xffffffffffffffffffffffffffffffffffffffffffffffffffffffffffffffff")
+		default:
+			rad = new(uint256.Int).SetBytes(r.Bytes(1 + r.Intn(32)))
+		}
+		var dists [][]byte
+		b32 := func(x *uint256.Int) []byte { v := x.Bytes32(); return v[:] }
+		dists = append(dists, b32(rad), make([]byte, 32))
+		if !rad.IsZero() {
+			dists = append(dists, b32(new(uint256.Int).SubUint64(rad, 1)))
+		}
+		if rad.Lt(uint256.MustFromHex("0xffffffffffffffffffffffffffffffffffffffffffffffffffffffffffffffff")) {
+			dists = append(dists, b32(new(uint256.Int).AddUint64(rad, 1)))
+		}
+		for j := 0; j < 6; j++ {
+			dists = append(dists, r.Bytes(32))
+		}
+		d := make([]byte, 32)
+		d[r.Intn(32)] = byte(1 + r.Intn(255))
+		dists = append(dists, d)
+		c.Count("rpc06_rounds")
+		stRpc06(c, keyhex, rad, dists)
 	}
 }
